@@ -217,9 +217,16 @@ func replayInput(in RunInput, out RunOutput) RunInput {
 // whether the violation key shows up there: state that earlier runs left behind in this worker process
 // (package-level variables of the code under test) must not be what a reported violation depends on.
 func (w *worker) freshReplay(rin RunInput, key string) bool {
+	ok, _ := w.freshReplayHash(rin, key)
+	return ok
+}
+
+// freshReplayHash re-executes a run in a fresh child process and returns whether the violation showed again and
+// the event-log hash of that execution (the hash a later replay in yet another fresh process must match).
+func (w *worker) freshReplayHash(rin RunInput, key string) (bool, string) {
 	dir, err := os.MkdirTemp(filepath.Dir(w.spec.Out), "fresh-")
 	if err != nil {
-		return false
+		return false, ""
 	}
 	defer os.RemoveAll(dir)
 	rule, sig, _ := strings.Cut(key, "|")
@@ -227,28 +234,28 @@ func (w *worker) freshReplay(rin RunInput, key string) bool {
 	b, _ := json.Marshal(rf)
 	rfPath := filepath.Join(dir, "replay.json")
 	if os.WriteFile(rfPath, b, 0o644) != nil {
-		return false
+		return false, ""
 	}
 	spec := WorkerSpec{Property: w.p.ID, Tier: w.spec.Tier, Mode: "replay", ReplayFile: rfPath, Out: filepath.Join(dir, "out.json")}
 	sb, _ := json.Marshal(spec)
 	specPath := filepath.Join(dir, "spec.json")
 	if os.WriteFile(specPath, sb, 0o644) != nil {
-		return false
+		return false, ""
 	}
 	cmd := exec.Command(os.Args[0], "-test.run", "^TestWorker$", "-test.timeout", "5m")
 	cmd.Env = append(os.Environ(), "KMIPVERIF_SPEC="+specPath)
 	if err := cmd.Run(); err != nil {
-		return false
+		return false, ""
 	}
 	raw, err := os.ReadFile(spec.Out)
 	if err != nil {
-		return false
+		return false, ""
 	}
 	var res WorkerResult
 	if json.Unmarshal(raw, &res) != nil || res.Replay == nil {
-		return false
+		return false, ""
 	}
-	return res.Replay.Reproduced
+	return res.Replay.Reproduced, res.Replay.Hash
 }
 
 func (w *worker) minimiseAndWrite(f *Finding, in RunInput, out RunOutput, v Violation, minimise bool) {
@@ -285,8 +292,14 @@ func (w *worker) minimiseAndWrite(f *Finding, in RunInput, out RunOutput, v Viol
 	}
 	f.Detail = detail
 	best.Scenario = fin.Scenario // informational when FromGen
+	// the event hash a replay has to match is the one of a fresh process, not of this long-lived worker (on a tree
+	// that keeps process-wide state the two executions may differ in their yields although both show the violation)
+	hash := fmt.Sprintf("%016x", fin.EventHash)
+	if ok, fh := w.freshReplayHash(best, v.Key()); ok && fh != "" {
+		hash = fh
+	}
 	rf := ReplayFile{Property: w.p.ID, Input: best, Seed: w.spec.Seed,
-		Expect: Expect{Rule: v.Rule, Sig: v.Sig, EventHash: fmt.Sprintf("%016x", fin.EventHash)},
+		Expect: Expect{Rule: v.Rule, Sig: v.Sig, EventHash: hash},
 		Detail: detail, Events: lastN(fin.Events, 80), MinStats: st}
 	h := sha256.Sum256([]byte(v.Key()))
 	name := fmt.Sprintf("%s-%s-%s.json", w.p.ID, sanitize(v.Rule), hex.EncodeToString(h[:4]))
